@@ -32,6 +32,9 @@ def get_prop(pid):
     if pid == "C09":
         import p_obs
         return p_obs.ObsProp()
+    if pid == "C17":
+        import p_done
+        return p_done.DoneProp(pid)
     raise SystemExit(f"unknown property {pid}")
 
 
